@@ -6,6 +6,7 @@
       → `ok <dict>` / `err <Class> …`; generated ids print as the string "FRESH";
         `jsonclass.dump` on plain data is JSON normalisation.
     fdump <L5: cfgVersion code message rpcid data>   Fault(code, message, rpcid, config, data).dump()
+    fdumpw <L7: cfgVersion code message rpcid data forcedId version>   Fault(...).dump(rpcid=forcedId, version=version), then .dump()
 -/
 import JRV.Driver.Codec
 import JRV.Model.Payload
@@ -43,8 +44,22 @@ def fdumpC (toks : List String) : String :=
     "ok " ++ showVal (faultDump cfg { code := code, message := message, rpcid := rpcid, data := data })
   | _ => "bad-op"
 
+/-- `fdumpw <L7: cfgVersion code message rpcid data forcedId version>`:
+    `f = Fault(code, message, rpcid, config, data); f.dump(rpcid=forcedId, version=version)` then `f.dump()`
+    → `ok <first dict> | ok <second dict>` -/
+def fdumpwC (toks : List String) : String :=
+  match readVal toks with
+  | some (.list [.int cv, code, message, rpcid, data, forced, version], []) =>
+    match verArg? version with
+    | some va =>
+      let cfg : Config := { version := cv.toNat }
+      let (d, f') := faultDumpWith cfg { code := code, message := message, rpcid := rpcid, data := data } forced va
+      "ok " ++ showVal d ++ " | ok " ++ showVal (faultDump cfg f')
+    | Option.none => "bad-op"
+  | _ => "bad-op"
+
 def payloadComponents : List (String × (List String → String)) := [
-  ("pdump", pdumpC), ("fdump", fdumpC)
+  ("pdump", pdumpC), ("fdump", fdumpC), ("fdumpw", fdumpwC)
 ]
 
 end JRV.Driver
